@@ -228,13 +228,10 @@ func c46One(r *rng, id int, forceKind int) c46Case {
 	c := c46Case{ID: id, WC: r.coin(1, 2), WCB: r.coin(1, 3), Ign: r.coin(1, 2), Eager: r.coin(1, 4)}
 	c.Objs, c.Perm, c.Recs, c.Sizes, c.Oracle, c.Stored = []string{}, []int{}, [][2]int{}, []int{}, []oracleEntry{}, []string{}
 
-	tt := time.Now()
-	lap := func(w string) { if os.Getenv("VERIF_LAP") != "" { println(w, time.Since(tt).Milliseconds()); tt = time.Now() } }
 	// ---- source shard
 	dirA := tempDir()
 	defer os.RemoveAll(dirA)
 	a := mustShard(dirA, envOpts{wc: c.WC})
-	lap("openA")
 	nobj := r.intn(7)
 	if r.coin(1, 12) {
 		nobj = 0
@@ -258,7 +255,6 @@ func c46One(r *rng, id int, forceKind int) c46Case {
 			}
 		}
 	}
-	lap("putsA")
 	if err := a.sh.SetMode(mode.ReadOnly); err != nil {
 		fatal("c46: set RO: %v", err)
 	}
@@ -267,9 +263,7 @@ func c46One(r *rng, id int, forceKind int) c46Case {
 	c.DumpCount, c.DumpErr = n, err != nil
 	dump := append([]byte(nil), buf.Bytes()...)
 	c.Dump = hex.EncodeToString(dump)
-	lap("dumpA")
 	_ = a.sh.Close()
-	lap("closeA")
 	bodies := flatBodies(dump)
 	c.DumpRecs = flatOffsets(dump)
 	for _, b := range bodies {
@@ -391,18 +385,14 @@ func c46One(r *rng, id int, forceKind int) c46Case {
 		}
 		c.Oracle = append(c.Oracle, e)
 	}
-	lap("oracle")
 	_ = sc.sh.Close()
-	lap("closeC")
 
 	// ---- restore into an empty shard
 	dirB := tempDir()
 	defer os.RemoveAll(dirB)
 	b := mustShard(dirB, envOpts{wc: c.WCB})
-	lap("openB")
 	cnt, fl, rerr := b.sh.Restore(newChunkReader(stream, c.Sizes, c.Eager), c.Ign)
 	c.Count, c.Fail, c.Err = cnt, fl, errClass46(rerr)
-	lap("restore")
 	addrs, err := b.sh.List()
 	if err != nil {
 		fatal("c46: list: %v", err)
@@ -415,9 +405,7 @@ func c46One(r *rng, id int, forceKind int) c46Case {
 		c.Stored = append(c.Stored, hex.EncodeToString(bin))
 	}
 	sort.Strings(c.Stored)
-	lap("list")
 	_ = b.sh.Close()
-	lap("closeB")
 	return c
 }
 
